@@ -237,11 +237,47 @@ pub fn drv(f: &[&str], through_auto: bool) -> String {
     format!("{} | {}", outcome, if received.is_empty() { "-".to_owned() } else { hex(&received) })
 }
 
+/// `drvv <script> <hex/hex/...>`: the caller protocol over `write_vectored` (std's write_all_vectored loop)
+pub fn drvv(f: &[&str]) -> String {
+    let log = Rc::new(RefCell::new(Log::default()));
+    let inner: Box<dyn Write> = Box::new(Scripted { script: parse_script(f[0]), log: log.clone() });
+    let mut s = anstream::StripStream::new(inner);
+    let bufs: Vec<Vec<u8>> = f[1].split('/').map(unhex).collect();
+    let total: usize = bufs.iter().map(|b| b.len()).sum();
+    let mut slices: Vec<std::io::IoSlice<'_>> = bufs.iter().map(|b| std::io::IoSlice::new(b)).collect();
+    let mut rest = &mut slices[..];
+    std::io::IoSlice::advance_slices(&mut rest, 0);
+    let mut outcome = "ok".to_owned();
+    let mut guard = 0usize;
+    while !rest.is_empty() {
+        guard += 1;
+        if guard > 10 * (total + 10) + 1000 {
+            outcome = "livelock".to_owned();
+            break;
+        }
+        match s.write_vectored(rest) {
+            Ok(0) => {
+                outcome = "err:Z".to_owned();
+                break;
+            }
+            Ok(n) => std::io::IoSlice::advance_slices(&mut rest, n),
+            Err(e) if e.kind() == std::io::ErrorKind::Interrupted => {}
+            Err(e) => {
+                outcome = format!("err:{}", kind_name(e.kind()));
+                break;
+            }
+        }
+    }
+    let received = log.borrow().received.clone();
+    format!("{} | {}", outcome, if received.is_empty() { "-".to_owned() } else { hex(&received) })
+}
+
 pub fn dispatch(kind: &str, f: &[&str]) -> Option<String> {
     Some(match kind {
         "strm" => strm(f),
         "drv" => drv(f, false),
         "drvn" => drv(f, true),
+        "drvv" => drvv(f),
         _ => return None,
     })
 }
